@@ -17,7 +17,9 @@ of the operation.
 
     finish():  struct_cb(value):   insideRW += 1; for m, p in paramdict: setattr(modobj, p.name, value[m]); insideRW -= 1
                cb_m(value):        if not insideRW: prev = dict(struct); prev[m] = value; setattr(modobj, struct, prev)
-    combined layout (read_<struct>/write_<struct> written by the programmer):
+    combined layout (hasStructRW: read_<struct> or write_<struct> written by the programmer; the one that is missing is the
+    plain wrapper: a read returns the cached value, a write stores the validated value), for every member without a
+    programmer-written method of that name:
        read_<member>  = lambda: read_<struct>()[member]
        write_<member> = lambda v: d = dict(struct); d[member] = v; write_<struct>(d); return read_<member>()
     per-member layout:
@@ -69,9 +71,13 @@ inductive Ev
 
 structure Cfg where
   members : List String              -- paramdict order
-  combined : Bool                    -- hasStructRW
-  hasR : String → Bool               -- per-member layout: the programmer wrote read_<m>
-  hasW : String → Bool               -- per-member layout: the programmer wrote write_<m>
+  hasRS : Bool                       -- the programmer wrote read_<struct>
+  hasWS : Bool                       -- the programmer wrote write_<struct>
+  hasR : String → Bool               -- the programmer wrote read_<m> (either layout)
+  hasW : String → Bool               -- the programmer wrote write_<m> (either layout)
+
+/-- `hasStructRW = hasattr(owner, 'read_<struct>') or hasattr(owner, 'write_<struct>')` -/
+def Cfg.combined (cfg : Cfg) : Bool := cfg.hasRS || cfg.hasWS
 
 structure St where
   struct : Dict
@@ -130,32 +136,47 @@ def writeStructA (cfg : Cfg) (v : Dict) (w : WRes Dict) (s : St) : St :=
   | .retNone => fine (announceStruct cfg v s)
   | .ret d => if wf cfg d then fine (announceStruct cfg d s) else failed s
 
+/-- `read_<struct>` in the combined layout: the programmer's body, or (only `write_<struct>` written) the plain wrapper
+returning the cached value -/
+def readStructC (cfg : Cfg) (r : RRes Dict) (s : St) : St :=
+  if cfg.hasRS then readStructA cfg r s else fine s
+
+/-- `write_<struct>(v)` in the combined layout: the programmer's body, or (only `read_<struct>` written) the plain wrapper
+storing the validated value -/
+def writeStructC (cfg : Cfg) (v : Dict) (w : WRes Dict) (s : St) : St :=
+  if cfg.hasWS then writeStructA cfg v w s else writeStructA cfg v .retNone s
+
 /-- wrapped generated `read_<member>` -/
 def readMemberA (cfg : Cfg) (m : String) (r : RRes Dict) (s : St) : St :=
-  let s1 := readStructA cfg r s
+  let s1 := readStructC cfg r s
   if !s1.ok then s1 else
   match s1.struct.lookup m with
   | none => failed s1
   | some x => fine (announceMember cfg m x s1)
 
-/-- wrapped generated `write_<member>(v)` -/
-def writeMemberA (cfg : Cfg) (m : String) (v : Val) (w : WRes Dict) (r : RRes Dict) (s : St) : St :=
-  let s1 := writeStructA cfg (s.struct.set m v) w s
-  if !s1.ok then s1 else
-  let s2 := readMemberA cfg m r s1
-  if !s2.ok then s2 else
-  match s2.mem.lookup m with
-  | none => failed s2
-  | some x => fine (announceMember cfg m x s2)
-
-/-! ### per-member layout -/
-
+/-- wrapped programmer-written `read_<m>` (either layout; without one: the plain wrapper returning the cached value) -/
 def readMemberB (cfg : Cfg) (m : String) (r : RRes Val) (s : St) : St :=
   if cfg.hasR m then
     match r with
     | .fail k => failedExc (some k) s
     | .ok x => fine (announceMember cfg m x s)
   else fine s
+
+/-- `read_<member>` in the combined layout: the programmer's when there is one, else the generated one -/
+def readMemberC (cfg : Cfg) (m : String) (r : RRes Dict) (rB : RRes Val) (s : St) : St :=
+  if cfg.hasR m then readMemberB cfg m rB s else readMemberA cfg m r s
+
+/-- wrapped generated `write_<member>(v)` -/
+def writeMemberA (cfg : Cfg) (m : String) (v : Val) (w : WRes Dict) (r : RRes Dict) (rB : RRes Val) (s : St) : St :=
+  let s1 := writeStructC cfg (s.struct.set m v) w s
+  if !s1.ok then s1 else
+  let s2 := readMemberC cfg m r rB s1
+  if !s2.ok then s2 else
+  match s2.mem.lookup m with
+  | none => failed s2
+  | some x => fine (announceMember cfg m x s2)
+
+/-! ### per-member layout -/
 
 def writeMemberB (cfg : Cfg) (m : String) (v : Val) (w : WRes Val) (s : St) : St :=
   if cfg.hasW m then
@@ -217,19 +238,19 @@ inductive Op
   | readStruct (rA : RRes Dict) (rB : String → RRes Val)               -- oracle of read_<m>, by member
   | writeStruct (v : Dict) (wA : WRes Dict) (wB : String → WRes Val)   -- oracle of write_<m>, by member
   | readMember (m : String) (rA : RRes Dict) (rB : RRes Val)
-  | writeMember (m : String) (v : Val) (wA : WRes Dict) (rA : RRes Dict) (wB : WRes Val)
+  | writeMember (m : String) (v : Val) (wA : WRes Dict) (rA : RRes Dict) (wB : WRes Val) (rB : RRes Val)
   | driverAssignStruct (v : Dict)
   | driverAssignMember (m : String) (v : Val)
 
 def step (cfg : Cfg) (s : St) : Op → St
-  | .readStruct rA rB => if cfg.combined then readStructA cfg rA s else readStructB cfg rB s
-  | .writeStruct v wA wB => if cfg.combined then writeStructA cfg v wA s else writeStructB cfg v wB s
+  | .readStruct rA rB => if cfg.combined then readStructC cfg rA s else readStructB cfg rB s
+  | .writeStruct v wA wB => if cfg.combined then writeStructC cfg v wA s else writeStructB cfg v wB s
   | .readMember m rA rB =>
     if !cfg.members.contains m then failed s
-    else if cfg.combined then readMemberA cfg m rA s else readMemberB cfg m rB s
-  | .writeMember m v wA rA wB =>
+    else if cfg.combined && !cfg.hasR m then readMemberA cfg m rA s else readMemberB cfg m rB s
+  | .writeMember m v wA rA wB rB =>
     if !cfg.members.contains m then failed s
-    else if cfg.combined then writeMemberA cfg m v wA rA s else writeMemberB cfg m v wB s
+    else if cfg.combined && !cfg.hasW m then writeMemberA cfg m v wA rA rB s else writeMemberB cfg m v wB s
   | .driverAssignStruct v => if wf cfg v then fine (assignStruct cfg v s) else failed s   -- not stored: `readerror`
   | .driverAssignMember m v => if !cfg.members.contains m then failed s else fine (announceMember cfg m v s)
 
